@@ -89,6 +89,14 @@ Theorem closed_serves_nothing : forall m, In m methods ->
 Proof. exact closed_serves_nothing_l. Qed.
 Print Assumptions closed_serves_nothing.
 
+(* Zip side: archiving a file succeeds only if the back end served exactly the number of bytes it had announced (the
+   walker's comparison of the copied count with info.Size() is a GENERATED fact): a source that is cut short, or grows,
+   between the walk and the copy makes Zip fail instead of handing over an archive that does not reproduce the tree. *)
+Theorem zip_success_means_announced_size_copied : forall announced served,
+  zip_file_ok announced served = true -> announced = served.
+Proof. exact zip_file_ok_sound_l. Qed.
+Print Assumptions zip_success_means_announced_size_copied.
+
 (* Close, over the GENERATED shapes of VFS.Close (files.go) and closeableResource.Close (resource.go): whenever Close()
    returns nil the closed flag is set (so the guard of every method fires), and it does return nil when closing the
    underlying archive file succeeds.  When the underlying close fails (archive file already closed by the caller on the
